@@ -457,3 +457,51 @@ package server
 //@   invariant -1 <= rangeindex && rangeindex < len(set.members)
 //@   invariant forall i int :: 0 <= i && i <= rangeindex ==> set.members[i] != rm
 //@   decreases len(set.members) - rangeindex
+
+// ---------------------------------------------------------------- zset.go: members ordered by score, one entry per member name
+
+//@ spec func zsetOK(z ref) bool = z != nil && (forall i int :: 0 <= i && i < len(z.members) ==> z.members[i] != nil && !isNaN(z.members[i].Score)) && (forall i int, j int :: 0 <= i && i < j && j < len(z.members) ==> z.members[i].Score <= z.members[j].Score && z.members[i].Member != z.members[j].Member)
+//@ spec func zNN(z ref) bool = z != nil && (forall i int :: 0 <= i && i < len(z.members) ==> z.members[i] != nil && !isNaN(z.members[i].Score))
+//@ spec func zSorted(z ref) bool = forall i int :: 0 <= i && i + 1 < len(z.members) ==> z.members[i].Score <= z.members[i + 1].Score
+//@ spec func zUniq(z ref) bool = forall i int, j int :: 0 <= i && i < j && j < len(z.members) ==> z.members[i].Member != z.members[j].Member
+//@ spec func zAbsent(z ref, name string) bool = forall i int :: 0 <= i && i < len(z.members) ==> z.members[i].Member != name
+
+//@ func NewZSet
+//@ assigns nothing
+//@ ensures {C18} result != nil && fresh(result) && len(result.members) == 0
+
+//@ func (*ZSet).Add
+//@ requires {C18} zsetOK(zset) && (forall k int :: 0 <= k && k < len(nms) ==> nms[k] != nil && !isNaN(nms[k].Score)) && arr(nms) != arr(zset.members)
+//@ assigns zset.members, comp:E|Ref, alloc
+//@ ensures {C18} zNN(zset)
+//@ ensures {C18} zSorted(zset)
+//@ ensures {C18} zUniq(zset)
+//@ ensures {C18} 0 <= result && result <= len(nms) && len(zset.members) == old(len(zset.members)) + result
+//@ loop 0
+//@   invariant -1 <= rangeindex && rangeindex < len(nms) && 0 <= addedMemberCount && addedMemberCount <= rangeindex + 1
+//@   invariant len(zset.members) == old(len(zset.members)) + addedMemberCount && arr(nms) != arr(zset.members)
+//@   invariant zNN(zset)
+//@   invariant zSorted(zset)
+//@   invariant zUniq(zset)
+//@   invariant forall k int :: 0 <= k && k < len(nms) ==> nms[k] != nil && !isNaN(nms[k].Score)
+//@   decreases len(nms) - rangeindex
+//@ loop 1
+//@   invariant -1 <= rangeindex && rangeindex < len(zset.members) && isNewMember && nm != nil && !isNaN(nm.Score)
+//@   invariant len(zset.members) == old(len(zset.members)) + addedMemberCount && arr(nms) != arr(zset.members)
+//@   invariant zNN(zset)
+//@   invariant zSorted(zset)
+//@   invariant zUniq(zset)
+//@   invariant forall k int :: 0 <= k && k < len(nms) ==> nms[k] != nil && !isNaN(nms[k].Score)
+//@   invariant forall i int :: 0 <= i && i <= rangeindex ==> zset.members[i].Member != nm.Member
+//@   decreases len(zset.members) - rangeindex
+//@ loop 2
+//@   invariant -1 <= rangeindex && rangeindex < len(zset.members) && !isAdded && nm != nil && !isNaN(nm.Score)
+//@   invariant forall k int :: 0 <= k && k < len(nms) ==> nms[k] != nil && !isNaN(nms[k].Score)
+//@   invariant arr(nms) != arr(zset.members)
+//@   invariant zNN(zset)
+//@   invariant zSorted(zset)
+//@   invariant zUniq(zset)
+//@   invariant zAbsent(zset, nm.Member)
+//@   invariant len(zset.members) == old(len(zset.members)) + addedMemberCount - (isNewMember ? 0 : 1)
+//@   invariant forall i int :: 0 <= i && i <= rangeindex ==> zset.members[i].Score <= nm.Score
+//@   decreases len(zset.members) - rangeindex
